@@ -1299,7 +1299,9 @@ private:
 
   bool _parseString(Json &out)
   {
-    if (_text[_pos] != '"')
+    // _parseObject() calls this for member names without checking for end of
+    // input first ("{" or "{\"a\":1,"), so the bounds check must be here.
+    if (_pos >= _text.size() || _text[_pos] != '"')
     {
       _error = "Expected '\"'";
       return false;
